@@ -35,7 +35,7 @@ META = dict(
     outside=["that the target sector's lowest eigenvalue lies in the retained eigenspace beyond the certificate premises "
              "(generators commute with H; eigenvalues taken from the reference determinant)", "IEEE rounding",
              "trimming of rotations whose angle is only within atol of an odd multiple of pi (exact multiples are checked)",
-             "non-diagonal operators in the compression check", "molecular Hamiltonians from PySCF (symbolic integrals instead)"],
+             "non-diagonal operators in the solver-decided compression check (auxiliary numeric shapes aux/compress-nondiagonal only)", "molecular Hamiltonians from PySCF (symbolic integrals instead)"],
     stubs=[], trusted_base=["symx.refsem", "symx.fock"],
 )
 
@@ -300,6 +300,36 @@ def h_compress(env, n, words, canary=False):
         env.check_eq(after[w], before[w], f"kept coefficient of {w} unchanged")
 
 
+def h_compress_aux(env, n, n_terms, seed):
+    """AUXILIARY concrete shape (numpy eigenvalues, no solver role): NON-diagonal operators. frobenius_norm_compression(eps, n)
+    on seeded random Hermitian Pauli sums: every sorted eigenvalue moves by at most eps (1e-9 slack), the kept coefficients are
+    unchanged and no term is added; eps is chosen so that some terms are dropped and some kept"""
+    from openfermion import get_sparse_operator
+    from tangelo.toolboxes.operators import QubitOperator
+    rnd = random.Random(1000 * n + 17 * n_terms + seed)
+    worst = 0.0
+    with shim.concrete_mode():
+        for trial in range(6):
+            op = QubitOperator()
+            while len(op.terms) < n_terms:
+                w = tuple((q, rnd.choice("XYZ")) for q in range(n) if rnd.random() < 0.6)
+                op.terms[w] = rnd.choice([1, -1]) * 10 ** rnd.uniform(-3, 0)
+            before = dict(op.terms)
+            M0 = get_sparse_operator(op, n_qubits=n).toarray()
+            mags = sorted(abs(c) for c in before.values())
+            # threshold between the 3rd smallest coefficient and the largest ones, in the units of the documented criterion
+            eps = float(np.sqrt(sum(m * m for m in mags[:3])) * np.sqrt(2 ** n) * 1.0000001)
+            op.frobenius_norm_compression(eps, n)
+            after = dict(op.terms)
+            M1 = get_sparse_operator(op, n_qubits=n).toarray() if after else np.zeros_like(M0)
+            shift = float(np.abs(np.linalg.eigvalsh(M0) - np.linalg.eigvalsh(M1)).max())
+            worst = max(worst, shift / eps)
+            env.check_true(shift <= eps + 1e-9, f"non-diagonal operator ({n} qubits, {n_terms} terms, trial {trial}): every sorted eigenvalue moves by at most eps",
+                           detail=f"shift {shift} > eps {eps}")
+            env.check_true(all(w in before and abs(after[w] - before[w]) < 1e-15 for w in after), "kept terms are input terms with unchanged coefficients")
+            env.check_true(0 < len(after) < len(before) or n_terms < 4, "the chosen eps drops some terms and keeps others", detail=f"{len(before)} -> {len(after)}")
+
+
 def shapes(tier, seed):
     out = []
     taper = [(2, "jw", False, 2, 0), (2, "jw", True, 2, 0), (2, "bk", False, 2, 0), (2, "bk", True, 2, 0), (2, "jkmn", False, 2, 0), (3, "jkmn", False, 2, 0),
@@ -356,6 +386,8 @@ def shapes(tier, seed):
             (2, [[(0, "Z"), (1, "Z")]])]
     for i, (n, words) in enumerate(comp):
         out.append(Shape(f"compress/n{n}/{i}", h_compress, dict(n=n, words=words), modules=MODS, max_paths=128, policy=dict(threshold="fork")))
+    for (n_, k_) in ((1, 3), (2, 6), (3, 8), (3, 12), (4, 10)) + (((5, 14), (4, 20)) if tier == "thorough" else ()):
+        out.append(Shape(f"aux/compress-nondiagonal/n{n_}/k{k_}", h_compress_aux, dict(n=n_, n_terms=k_, seed=seed), modules=()))
     out.append(Shape("canary/compress", h_compress, dict(n=2, words=[[(0, "Z")], [(1, "Z")]], canary=True), modules=MODS, max_paths=128,
                      canary=True, policy=dict(threshold="fork")))
     return out
